@@ -214,19 +214,21 @@ fn apply_replication(
     // but skip outdated data per-entity by checking last received tick for it
     // (unless user requested history via marker).
     let update_tick = *world.resource::<ServerUpdateTick>();
-    let acks_size =
-        MutateIndex::POSTCARD_MAX_SIZE * client.received_count(ServerChannel::Mutations);
-    if acks_size != 0 {
-        let mut acks = Vec::with_capacity(acks_size);
-        for message in client.receive(ServerChannel::Mutations) {
-            if let Err(e) = buffer_mutate_message(params, buffered_mutations, message, &mut acks) {
-                error!("unable to buffer mutate message: {e}");
-            }
+    let received_count = client.received_count(ServerChannel::Mutations);
+    for message in client.receive(ServerChannel::Mutations) {
+        if let Err(e) = buffer_mutate_message(params, buffered_mutations, message) {
+            error!("unable to buffer mutate message: {e}");
         }
-        client.send(ClientChannel::MutationAcks, acks);
     }
 
-    apply_mutate_messages(world, params, buffered_mutations, update_tick);
+    // Acknowledge only applied messages. A message that is still waiting for its update tick may
+    // never be applied to an entity if a newer update message for it arrives first.
+    let acks_size = MutateIndex::POSTCARD_MAX_SIZE * received_count;
+    let mut acks = Vec::with_capacity(acks_size);
+    apply_mutate_messages(world, params, buffered_mutations, update_tick, &mut acks);
+    if !acks.is_empty() {
+        client.send(ClientChannel::MutationAcks, acks);
+    }
 }
 
 /// Reads and applies an update message.
@@ -311,7 +313,6 @@ fn buffer_mutate_message(
     params: &mut ReceiveParams,
     buffered_mutations: &mut BufferedMutations,
     mut message: Bytes,
-    acks: &mut Vec<u8>,
 ) -> Result<()> {
     if let Some(stats) = &mut params.stats {
         stats.messages += 1;
@@ -331,10 +332,9 @@ fn buffer_mutate_message(
         update_tick,
         message_tick,
         messages_count,
+        mutate_index,
         message,
     });
-
-    postcard_utils::to_extend_mut(&mutate_index, acks)?;
 
     Ok(())
 }
@@ -348,6 +348,7 @@ fn apply_mutate_messages(
     params: &mut ReceiveParams,
     buffered_mutations: &mut BufferedMutations,
     update_tick: ServerUpdateTick,
+    acks: &mut Vec<u8>,
 ) {
     buffered_mutations.0.retain_mut(|mutate| {
         if mutate.update_tick > *update_tick {
@@ -361,6 +362,10 @@ fn apply_mutate_messages(
 
         match len {
             Ok(len) => {
+                // Acknowledge only fully applied messages, otherwise the server will skip the lost data.
+                if let Err(e) = postcard_utils::to_extend_mut(&mutate.mutate_index, acks) {
+                    error!("unable to serialize mutate index: {e}");
+                }
                 if let Some(stats) = &mut params.stats {
                     stats.entities_changed += len;
                 }
@@ -855,6 +860,9 @@ pub(super) struct BufferedMutate {
     ///
     /// May not be equal to the number of received messages.
     messages_count: usize,
+
+    /// Index to acknowledge after the message is applied.
+    mutate_index: MutateIndex,
 
     /// Mutations data.
     message: Bytes,
